@@ -12,8 +12,8 @@ E-hist over insertion histories:
      before == after to_ical(), and a second to_ical() gives the same bytes; sorted on and off;
  (E) every output is a balanced, properly nested BEGIN/END sequence;
  (F) the same script builds ~250 trees in sub-processes with PYTHONHASHSEED = 0..7 (thorough 0..63): identical digests;
- (G) ~65 trees (the purity menu plus look-alike values: month 5 / 5L, 0 / False / 0.0, 'A' / 'a') serialised in three different
-     orders in three fresh processes: every tree's bytes are the same whatever was serialised before it.
+ (G) ~85 trees (the purity menu plus look-alike values: month 5 / 5L, 0 / False / 0.0, 'A' / 'a', one instant in six zones / tz implementations, midnight as DATE and DATE-TIME, equal durations) serialised in 17 different
+     orders, each in a fresh process: every tree's bytes are the same whatever was serialised before it.
 """
 import hashlib
 import itertools
@@ -366,16 +366,53 @@ def emit_per_tree(order):
     builders = []
     for idx in range(len(value_menu())):
         builders.append((f"menu{idx}", lambda idx=idx: purity_tree(idx, True, True)))
-    for label, mk in (("month5", lambda: vRecur(freq="yearly", bymonth=[vMonth(5)])), ("month5L", lambda: vRecur(freq="yearly", bymonth=[vMonth("5L")])),
+    rot = int(order[3:]) if order.startswith("rot") else 0
+
+    def rotated(seq):
+        seq = list(seq)
+        k = rot % len(seq)
+        return seq[k:] + seq[:k]
+    for label, mk in rotated((("month5", lambda: vRecur(freq="yearly", bymonth=[vMonth(5)])), ("month5L", lambda: vRecur(freq="yearly", bymonth=[vMonth("5L")])),
                       ("int0", lambda: vInt(0)), ("boolF", lambda: vBoolean(False)), ("float0", lambda: vFloat(0.0)),
                       ("floatn0", lambda: vFloat(-0.0)), ("geo0", lambda: vGeo((0.0, 36.8))), ("geon0", lambda: vGeo((-0.0, 36.8))),
                       ("geo0n0", lambda: vGeo((0.0, -0.0))), ("int1", lambda: vInt(1)), ("boolT", lambda: vBoolean(True)), ("float1", lambda: vFloat(1.0)),
-                      ("textA", lambda: vText("A")), ("texta", lambda: vText("a")), ("uriA", lambda: vUri("A"))):
+                      ("textA", lambda: vText("A")), ("texta", lambda: vText("a")), ("uriA", lambda: vUri("A")))):
         def build(mk=mk):
             ev = Event()
             ev["x-v"] = mk()
             return ev
         builders.append((label, build))
+    # values that compare (and hash) equal although their texts differ: one instant in several zones and tz
+    # implementations, midnight as DATE and as floating DATE-TIME, durations and periods built from them
+    import pytz
+    utc10 = datetime(2024, 6, 1, 10, tzinfo=timezone.utc)
+    same = (("utc", utc10), ("zi-utc", utc10.astimezone(ZoneInfo("UTC"))), ("berlin", utc10.astimezone(ZoneInfo("Europe/Berlin"))),
+            ("ny", utc10.astimezone(ZoneInfo("America/New_York"))), ("pytz-berlin", utc10.astimezone(pytz.timezone("Europe/Berlin"))),
+            ("pytz-utc", utc10.astimezone(pytz.utc)), ("floating", datetime(2024, 6, 1, 10)),
+            ("midnight", datetime(2024, 6, 1)), ("date", date(2024, 6, 1)))
+    for label, v in rotated(same):
+        for prop, wrap in (("dtstart", lambda v: v), ("rdate", lambda v: [v]), ("exdate", lambda v: [v, v])):
+            def build(prop=prop, v=wrap(v)):
+                ev = Event()
+                ev.add(prop, v)
+                return ev
+            builders.append((f"{prop}-{label}", build))
+        if isinstance(v, datetime):
+            def build(v=v):
+                fb = FreeBusy()
+                fb.add("freebusy", [(v, timedelta(hours=1)), (v + timedelta(hours=2), v + timedelta(hours=3))])
+                return fb
+            builders.append((f"freebusy-{label}", build))
+    for label, td in rotated((("24h", timedelta(hours=24)), ("1d", timedelta(days=1)), ("0", timedelta(0)), ("-0", -timedelta(0)),
+                              ("7d", timedelta(days=7)), ("1w", timedelta(weeks=1)))):
+        def build(td=td):
+            ev = Event()
+            ev.add("duration", td)
+            a = Alarm()
+            a.add("trigger", td)
+            ev.add_component(a)
+            return ev
+        builders.append((f"duration-{label}", build))
     if order == "reverse":
         builders = builders[::-1]
     elif order == "interleaved":
@@ -467,7 +504,8 @@ def run(ctx):
     ctx.absorb("hash-seeds", ("hashseed", len(digests)), res)
     # (G) history independence across a process: per-tree digests in three serialisation orders
     maps = {}
-    for order in ("forward", "reverse", "interleaved"):
+    orders = ("forward", "reverse", "interleaved") + tuple(f"rot{k}" for k in range(1, 15))
+    for order in orders:
         p = subprocess.run([sys.executable, "-c", f"from mc.checks import c10; c10.emit_per_tree({order!r})"],
                            cwd=os.path.dirname(os.path.dirname(os.path.dirname(os.path.abspath(__file__)))),
                            env=dict(os.environ, PYTHONHASHSEED="0"), capture_output=True, text=True)
@@ -476,9 +514,9 @@ def run(ctx):
             raise HarnessError(f"order subprocess failed: {p.stderr[-500:]}")
         maps[order] = dict(kv.split("=") for kv in p.stdout.strip().split())
     diff = sorted(k for k in maps["forward"] if len({m.get(k) for m in maps.values()}) != 1)
-    ctx.part("process-history", orders=3, trees=len(maps["forward"]), differing=len(diff))
-    res = {"n": 3 * len(maps["forward"]), "state": ("orders", tuple(diff)), "trans": 3 * len(maps["forward"]), "traces": 3,
+    ctx.part("process-history", orders=len(orders), trees=len(maps["forward"]), differing=len(diff))
+    res = {"n": len(orders) * len(maps["forward"]), "state": ("orders", tuple(diff)), "trans": len(orders) * len(maps["forward"]), "traces": len(orders),
            "nontrivial": True, "outcome": "orders-ok" if not diff else "FAIL", "fails": []}
     if diff:
         res["fails"].append(fail("bytes-depend-on-what-was-serialised-before", ("orders", tuple(diff)), "same bytes in every order", diff))
-    ctx.absorb("process-history", ("orders", 3), res)
+    ctx.absorb("process-history", ("orders", len(orders)), res)
